@@ -3,17 +3,20 @@
 package c06
 
 import (
+	"bytes"
 	"fmt"
 	"math/rand"
 	"regexp"
 	"sort"
 	"strconv"
 	"strings"
+	"time"
 
 	"github.com/google/pprof/profile"
 	"github.com/google/pprof/verif/internal/drv"
 	"github.com/google/pprof/verif/internal/harness"
 	"github.com/google/pprof/verif/internal/mon"
+	"github.com/google/pprof/verif/internal/sess"
 )
 
 type fframe struct {
@@ -282,6 +285,102 @@ func runNames(c *harness.Ctx) harness.Result {
 	return res
 }
 
+// interactive arguments: "proto F1 F2 -I1 > file" in a fresh interactive session filters like
+// focus=F1|F2 ignore=I1 (arguments apply to that command only)
+func runInteractive(c *harness.Ctx) harness.Result {
+	r := c.Rng
+	p := genProfile(r)
+	words := []string{"f0", "f1|f2", "file1", "binA", "^f3$", "zzz", "bin", "f", "main$", "[0-1]$", "lib/"}
+	var fw, iw []string
+	for i, n := 0, r.Intn(3); i < n; i++ {
+		fw = append(fw, words[r.Intn(len(words))])
+	}
+	for i, n := 0, r.Intn(3); i < n; i++ {
+		iw = append(iw, words[r.Intn(len(words))])
+	}
+	if len(fw)+len(iw) == 0 {
+		fw = []string{"f"}
+	}
+	var focus, ignore *regexp.Regexp
+	if len(fw) > 0 {
+		focus = regexp.MustCompile(strings.Join(fw, "|"))
+	}
+	if len(iw) > 0 {
+		ignore = regexp.MustCompile(strings.Join(iw, "|"))
+	}
+	var args []string
+	args = append(args, fw...)
+	for _, w := range iw {
+		args = append(args, "-"+w)
+	}
+	r.Shuffle(len(args), func(i, j int) { args[i], args[j] = args[j], args[i] })
+	line := "proto " + strings.Join(args, " ") + " > out.pb.gz"
+	var want []outcome
+	var vals [][]int64
+	und := 0
+	for _, s := range p.Sample {
+		o := refNames(fview(s), focus, ignore, nil, nil)
+		if o.undecided {
+			und++
+		}
+		want = append(want, o)
+		vals = append(vals, append([]int64(nil), s.Value...))
+	}
+	desc := fmt.Sprintf("interactive line %q", line)
+	res := harness.Result{NonTrivial: len(p.Sample) > und, Sig: desc + fmt.Sprint(len(p.Sample), c.Index), Sample: map[string]any{"line": line}}
+	var buf bytes.Buffer
+	if err := p.WriteUncompressed(&buf); err != nil {
+		return harness.Result{Verdict: harness.Inconclusive, Detail: err.Error()}
+	}
+	// a second, argument-free command checks that the arguments did not stick
+	sr, err := sess.Run(sess.Spec{Profile: buf.Bytes(), Mode: "interactive", Lines: []string{line, "proto > all.pb.gz"}, Dir: c.Tmp + "/s"}, 2*time.Minute)
+	if err != nil {
+		return harness.Result{Verdict: harness.Inconclusive, Detail: "session: " + err.Error()}
+	}
+	c.Stat("interactive_sessions", 1)
+	if len(sr.Segments) < 2 {
+		return harness.Result{Verdict: harness.Inconclusive, Detail: fmt.Sprintf("session produced %d segments", len(sr.Segments))}
+	}
+	read := func(seg sess.Segment, name string) (*profile.Profile, string) {
+		for fn, body := range seg.Files {
+			if strings.HasSuffix(fn, name) {
+				q, err := profile.ParseData(sess.FileBytes(body))
+				if err != nil {
+					return nil, fmt.Sprintf("%s is not a profile: %v", name, err)
+				}
+				return q, ""
+			}
+		}
+		return nil, fmt.Sprintf("no file %s was written (ui errors: %v)", name, seg.UIErr)
+	}
+	got, e := read(sr.Segments[0], "out.pb.gz")
+	if e != "" {
+		allDropped := true
+		for _, w := range want {
+			if w.keep || w.undecided {
+				allDropped = false
+			}
+		}
+		if allDropped {
+			c.Stat("interactive_nothing_left", 1)
+			return res // nothing matches: pprof reports that instead of writing an empty profile
+		}
+		return harness.Violation("%s: %s\nprofile:\n%s", desc, e, harness.Trunc(p.String(), 2500))
+	}
+	if msg := compare(p, got, want, vals); msg != "" {
+		res.Verdict, res.Detail = harness.Violated, desc+": "+msg+"\nprofile:\n"+harness.Trunc(p.String(), 3000)
+		return res
+	}
+	all, e := read(sr.Segments[1], "all.pb.gz")
+	if e != "" {
+		return harness.Violation("%s then 'proto > all.pb.gz': %s", desc, e)
+	}
+	if len(all.Sample) != len(p.Sample) {
+		res.Verdict, res.Detail = harness.Violated, fmt.Sprintf("%s: the next command without arguments saved %d of %d samples: the arguments of the previous line stuck", desc, len(all.Sample), len(p.Sample))
+	}
+	return res
+}
+
 // partition law: focus=R and ignore=R split the profile; totals add up
 func runPartition(c *harness.Ctx) harness.Result {
 	r := c.Rng
@@ -357,8 +456,8 @@ var byteF = map[string]int64{"b": 1, "bytes": 1, "kb": 1024, "mb": 1 << 20, "": 
 var timeF = map[string]int64{"ns": 1, "us": 1000, "ms": 1000000, "s": 1000000000}
 
 type labelSpec struct {
-	sizeUnit string // unit of key "size" profile-wide (bytes family)
-	durUnit  string // unit of key "dur" profile-wide (time family)
+	sizeUnit string  // unit of key "size" profile-wide (bytes family)
+	durUnit  string  // unit of key "dur" profile-wide (time family)
 	seconds  []int64 // whole-second values present in nanosecond "dur" labels
 }
 
@@ -674,13 +773,14 @@ func init() {
 	harness.Register(&harness.Check{
 		ID:    "C06",
 		Level: "exploration",
-		Rule: "part names: profiles over small name/file/binary alphabets with shared and inlined locations, unsymbolized frames and empty stacks, function and location ids distinct but neither dense nor ordered (values just above the table size included); every sample carries a unique id label so outcomes are matched per sample; random focus/ignore/hide/show/show_from expressions (12 patterns: literals, alternation, anchors, classes, path fragments), alone and combined, through the API (FilterSamplesByName + ShowFrom) and through the driver (-proto with the options, relative_percentages on/off). part partition: focus=R plus ignore=R must contain every sample exactly once and totals must add up (also on -top totals). part tags: string labels and numeric labels in bytes/kb, ms/us, unitless and key-inferred units against regexp lists (AND without key, OR with key) and ranges N, N:, :N, N:M with unit conversion, optionally keyed, plus tagshow/taghide, through the driver. " +
+		Rule: "part names: profiles over small name/file/binary alphabets with shared and inlined locations, unsymbolized frames and empty stacks, function and location ids distinct but neither dense nor ordered (values just above the table size included); every sample carries a unique id label so outcomes are matched per sample; random focus/ignore/hide/show/show_from expressions (12 patterns: literals, alternation, anchors, classes, path fragments), alone and combined, through the API (FilterSamplesByName + ShowFrom) and through the driver (-proto with the options, relative_percentages on/off). part interactive: 'proto F.. -I.. > file' typed into a fresh interactive session (1-4 focus words and -ignore words in any order) must filter like focus=F1|F2 ignore=I1|I2, and an argument-free command after it must see every sample again. part partition: focus=R plus ignore=R must contain every sample exactly once and totals must add up (also on -top totals). part tags: string labels and numeric labels in bytes/kb, ms/us, unitless and key-inferred units against regexp lists (AND without key, OR with key) and ranges N, N:, :N, N:M with unit conversion, optionally keyed, plus tagshow/taghide, through the driver. " +
 			"oracle: reference filter written from doc/README.md over the frames view; values, labels and frame order must be retained. non-trivial = at least one decided sample / a tag filter present; distinct = (filters, sample counts)",
 		Assumptions: []string{"undecided by the statement and accepted either way: empty-stack samples under hide/show, unsymbolized frames under show", "numeric label units are consistent per key within a profile", "a unitless range compares raw values of labels without a known unit"},
 		Parts: []harness.Part{
 			{Name: "names", Quick: 12000, Thor: 400000, Run: runNames},
 			{Name: "partition", Quick: 4000, Thor: 150000, Run: runPartition},
 			{Name: "tags", Quick: 6000, Thor: 200000, Run: runTags},
+			{Name: "interactive", Quick: 200, Thor: 6000, Run: runInteractive},
 		},
 		MinNonTrivial: func(string) int { return 1000 },
 	})
